@@ -478,7 +478,7 @@ pub fn check_task(run: Option<&Run>, mode: Mode, t: &ExtTask) -> Vec<(String, Va
 fn check_strong_flags(run: &Run, l: &str, r: &str) -> Vec<(String, Value)> {
     let mut out = vec![];
     let (Ok(left), Ok(right)) = (l.parse::<asp::Program>(), r.parse::<asp::Program>()) else { return out };
-    let cx = c03::pair_ctx_with(&left, &right, 6, l.starts_with("%numeric"));
+    let cx = c03::pair_ctx_marked(&left, &right, 6, l);
     let hs = ht_space(cx.u.len());
     let _ = ht_universe;
     for (rn, rep) in [("tau-star", FormulaRepresentation::TauStar), ("mu", FormulaRepresentation::Mu)] {
